@@ -26,7 +26,11 @@ fn main() {
             .replace("std::thread::sleep", "simkit::shim::time::sleep");
         // println!/eprintln! go through the simulator: inside a simulated sandbox
         // child, stdout is the pipe that carries the frames.
-        let l = reroute_print(&l);
+        let l = reroute_print(&l)
+            .replace("std::io::stderr()", "simkit::shim::child::stderr()")
+            .replace("io::stderr()", "simkit::shim::child::stderr()")
+            // (the first replacement leaves "child::stderr()", which the second one does not match)
+            ;
         // `use std::fs;` / `use std::fs as x;` / `fs` inside a `use std::{..}` group
         let l = if t.starts_with("use std::fs;") || t.starts_with("use std::fs as ") {
             l.replace("use std::fs", "use simkit::shim::fs")
